@@ -628,6 +628,37 @@ func c13Sequences(x *c13Run, seeds []seed) {
 	}
 	x.livenessProbe("acks and nacks while a relayed probe is pending")
 	x.rep.Outcome("sequence:relay-pending")
+	// (1b) the same with an environment answer: the node's own transport refuses the relayed ping,
+	// then the same acks and nacks arrive (the relay's number is a guessable counter)
+	x.fresh()
+	x.rcv.n.T.FailSend = func(p sentPkt) error {
+		if p.To == "10.0.0.30:7946" {
+			return fmt.Errorf("sendto: network is unreachable")
+		}
+		return nil
+	}
+	for _, sd := range seeds {
+		if sd.Family == "indirect-ping" {
+			x.rcv.injectPacket(sd.Buf)
+		}
+	}
+	for seq := uint32(0); seq <= 8; seq++ {
+		for _, kind := range []uint8{ml.VAckRespMsg, ml.VNackRespMsg} {
+			journal("C13 %v sequence indirect-ping (relayed ping refused by the transport) then type %d seq %d", c, kind, seq)
+			x.rep.Evaluations++
+			var plain []byte
+			if kind == ml.VNackRespMsg {
+				plain, _ = ml.VEncode(kind, &ml.VNackResp{SeqNo: seq}, false)
+			} else {
+				plain, _ = ml.VEncode(kind, &ml.VAckResp{SeqNo: seq}, false)
+			}
+			x.rcv.injectPacket(sealPacket(c, plain))
+			x.rcv.injectPacket(sealPacket(c, plain))
+		}
+	}
+	x.rcv.n.T.FailSend = nil
+	x.livenessProbe("acks and nacks after the relayed ping was refused by the transport")
+	x.rep.Outcome("sequence:relay-send-refused")
 	// (2) a node that has left (no alive local record) with a merge delegate, receiving join and
 	// non-join push/pull lists whose entries carry short / empty / odd version vectors
 	x.rcv.retire()
